@@ -248,6 +248,35 @@ void h_drain_steps(void)
 }
 
 /* ================================================================================================================== */
+/* 3e. drain(): lifecycle. C08: "an accepted timer is fired or cancelled, never silently lost" + schedule()'s contract (wheel_schedule Q8: refused with
+ *     InvalidTimerId exactly when !_accepting): from the moment drain() stops the tick thread nobody advances the wheel any more, so nothing may be accepted:
+ *     D1 at the stopTickThread() call _accepting is already false;  D2 on EVERY return path of drain() (incl. the timeout early return) _accepting == false;
+ *     D3 drain() invokes no handler while _accepting is true (asserted in the fireCallback stub);  D4 every return leaves state STOPPED.
+ *     Head block and fire-loop/returns block are the real text; the loop is closed by a loop contract (any number of handlers to fire).                 */
+void h_drain_lifecycle(void)
+{
+  TimingWheel W; iora_firelist fl; DrainStats st;
+  IORA_TRUE = 1; G_seq = 0; G_seq_join = 0; G_drain_fires = 0;
+  W._accepting = nondet_bool(); W._running = nondet_bool();
+  __CPROVER_assume(fl.n <= ((size_t)1 << 40));
+  st.fired = 0; st.remaining = 0; st.cancelled = nondet_size_t(); st.elapsed = 0;        /* DrainStats stats; (default member initialisers) + the collection's count */
+  TimingWheel_drainHead(&W);
+  IORA_CANARY("h_drain_lifecycle: head done");
+  /* D1 */ __CPROVER_assert(G_seq_join == 1 && !G_accepting_at_join, "D1 when drain() stops the tick thread the wheel has already stopped accepting");
+  __CPROVER_assert(W._state == TimingWheelState_DRAINING && !W._running, "D0 drain() announces DRAINING and stops the tick thread");
+  /* ... collection under the wheel lock, sort, fire-or-cancel decision (proofs drain_steps): no write to _accepting ... */
+  const int64_t start = nondet_i64(), timeout = nondet_i64();
+  __CPROVER_assume(start >= 0 && start <= ((int64_t)1 << 60) && timeout >= 0 && timeout <= ((int64_t)1 << 40));
+  G_clock_floor = start;
+  DrainStats r = TimingWheel_drainFire(&W, &fl, &st, start, timeout);
+  IORA_CANARY("h_drain_lifecycle: drain returns");
+  if (r.fired < fl.n) { IORA_CANARY("h_drain_lifecycle: timeout early return"); } else { IORA_CANARY("h_drain_lifecycle: normal return"); }
+  /* D2 */ __CPROVER_assert(!W._accepting, "D2 on every return path of drain() (incl. the timeout early return) the wheel is not accepting");
+  /* D4 */ __CPROVER_assert(W._state == TimingWheelState_STOPPED, "D4 every return path of drain() leaves the state STOPPED");
+  /* D5 */ __CPROVER_assert(r.fired == G_drain_fires && r.fired <= fl.n && (r.fired == fl.n || r.remaining == fl.n - r.fired), "D5 stats: fired counts the handlers invoked; on a timeout the rest is reported as remaining (not silently dropped from the count)");
+}
+
+/* ================================================================================================================== */
 /* 4. bounded stand-in: whole advance() (collectFromBucket + cascadeDown + insertEntry + list ops, all extracted text) on a
  *    2-level wheel of 4 buckets, tick 10, with up to 3 entries placed by the real insertEntry                            */
 #define NB 4
